@@ -273,7 +273,7 @@ class Lexer(object):
             pos = lexer.lexpos
             try:
                 char = lexer.lexdata[pos]
-                while char in ' \t':
+                while char in self.t_ignore:
                     pos += 1
                     char = lexer.lexdata[pos]
                 next_char = lexer.lexdata[pos + 1]
@@ -527,8 +527,6 @@ class Lexer(object):
         )
         """
 
-    t_regex_ignore = ' \t'
-
     def t_regex_error(self, token):
         raise ECMARegexSyntaxError(
             "Error parsing regular expression '%s' at %s:%s" % (
@@ -604,6 +602,9 @@ class Lexer(object):
         # unicode bom
         u'\uFEFF'
     )
+
+    # the same white space may precede a regular expression literal
+    t_regex_ignore = t_ignore
 
     t_NUMBER = r"""
     (?:
